@@ -4,6 +4,7 @@ CONSTANTS
   TupW = 3
 INVARIANT TupleLaw
 INVARIANT ArrayLaw
+INVARIANT EitherLaw
 INVARIANT FrozenLaw
 INVARIANT FnLaw
 INVARIANT QubitLaw
